@@ -251,3 +251,17 @@ def write_evidence(pid, tier, seed, level, coverage, assumptions, wall_s, violat
 def load_known():
     with open(os.path.join(VERIF, "known_findings.json")) as f:
         return json.load(f)
+
+
+ALGO_LABELS = ["BaseGraph::NoLabel", "int", "unsigned", "double", "char", "std::string", "verif::Custom"]
+
+
+def build_ah(config="o1", labels=None):
+    """The algorithm harness (harness/algo_main.cpp + one TU per label type + multigraph/weighted)."""
+    units = [(os.path.join(HARNESS, "algo_main.cpp"), [], "main"),
+             (os.path.join(HARNESS, "algo_mw.cpp"), [], "mw")]
+    for k, lab in enumerate(ALGO_LABELS):
+        if labels is not None and lab not in labels:
+            continue
+        units.append((os.path.join(HARNESS, "algo_inst.cpp"), ["-DVLABEL=%s" % lab], "lab%d" % k))
+    return build_program("ah", config, units)
